@@ -1048,6 +1048,95 @@ theorem check_sound (m : MDP) (hγ0 : 0 ≤ m.γ) (hγ1 : m.γ < 1) (hT : ValidT
   ⟨approx_fixed_points_close m hγ0 hγ1 hT V W rV rW (checkResidual_sound m V rV hV) (checkResidual_sound m W rW hW),
    fun Vs hVs => residual_to_fixed_point m hγ0 hγ1 hT V Vs rV (checkResidual_sound m V rV hV) hVs⟩
 
+/-! ## values for any tolerance; geometric decay; a warm-start observation -/
+
+theorem optFrom_shift (m : MDP) (v w : Nat → Rat) (h : ∀ s, s < m.S → w s = bellman m v s) :
+    ∀ k s, s < m.S → optFrom m w k s = optFrom m v (k+1) s := by
+  intro k
+  induction k with
+  | zero => intro s hs; simp only [optFrom]; exact h s hs
+  | succ k ih => intro s hs; simp only [optFrom] at ih ⊢; exact bellman_congr m ih s
+
+/-- for ANY tolerance setting the loop's values are the k-step DP values from its start, k = passes actually run -/
+theorem viLoop_values (m : MDP) (rep : Rep) (hrep : RepOK m rep) (hA : 0 < m.A) (useTol : Bool) (tol : Rat) :
+    ∀ (fuel : Nat) (st : VIState), VIShape m st →
+      st.timestep ≤ (viLoop m rep (immRewards m rep) useTol tol fuel st).timestep ∧
+      (viLoop m rep (immRewards m rep) useTol tol fuel st).timestep ≤ st.timestep + fuel ∧
+      ∀ s, s < m.S → (viLoop m rep (immRewards m rep) useTol tol fuel st).vf.values.get s
+          = optFrom m st.vf.values.get ((viLoop m rep (immRewards m rep) useTol tol fuel st).timestep - st.timestep) s := by
+  intro fuel
+  induction fuel with
+  | zero => intro st _; exact ⟨le_refl _, le_refl _, fun s _ => by simp [viLoop, optFrom]⟩
+  | succ fuel ih =>
+    intro st hsh
+    by_cases hstop : (useTol && !(decide (st.variation > tol))) = true
+    · have e : viLoop m rep (immRewards m rep) useTol tol (fuel+1) st = st := by
+        conv => lhs; unfold viLoop
+        simp only [hstop, if_true]
+      rw [e]
+      exact ⟨le_refl _, by omega, fun s _ => by simp [optFrom]⟩
+    · have e : viLoop m rep (immRewards m rep) useTol tol (fuel+1) st
+          = viLoop m rep (immRewards m rep) useTol tol fuel (viStep m rep (immRewards m rep) useTol st) := by
+        conv => lhs; unfold viLoop
+        simp only [hstop, Bool.false_eq_true, if_false]
+      obtain ⟨hsh', hval, _, _, hts, _⟩ := viStep_spec m rep hrep hA useTol st hsh
+      obtain ⟨i1, i2, i3⟩ := ih _ hsh'
+      rw [e]
+      rw [hts] at i1 i2
+      refine ⟨by omega, by omega, ?_⟩
+      intro s hs
+      rw [i3 s hs, hts]
+      have hk : (viLoop m rep (immRewards m rep) useTol tol fuel (viStep m rep (immRewards m rep) useTol st)).timestep - st.timestep
+          = ((viLoop m rep (immRewards m rep) useTol tol fuel (viStep m rep (immRewards m rep) useTol st)).timestep - (st.timestep + 1)) + 1 := by
+        omega
+      rw [hk]
+      exact optFrom_shift m _ _ hval _ s hs
+
+/-- **vi_values_eq_optH_timestep.** Whatever the tolerance, `ValueIteration(h, tol)(model)` from the default start returns
+    the k-step dynamic-programming values, where k ≤ h is the number of passes it ran. -/
+theorem vi_values_eq_optH_timestep (m : MDP) (rep : Rep) (hrep : RepOK m rep) (hA : 0 < m.A) (h : Nat) (tol : Rat) :
+    let out := valueIteration m rep h tol none
+    out.timestep ≤ h ∧ ∀ s, s < m.S → out.vf.values.get s = optH m out.timestep s := by
+  intro out
+  have hsh := makeVF_shape m (makeQ m.S m.A) (tol * 2) 0
+  obtain ⟨_, h2, h3⟩ := viLoop_values m rep hrep hA (useTolerance tol) tol h _ hsh
+  have hz : ∀ k s, s < m.S → optFrom m (makeVF m.S).values.get k s = optH m k s := by
+    intro k
+    induction k with
+    | zero => intro s _; simp [optFrom, optH, makeVF_get]
+    | succ k ih => intro s _; simp only [optFrom, optH] at ih ⊢; exact bellman_congr m ih s
+  refine ⟨by simpa [out, valueIteration] using h2, ?_⟩
+  intro s hs
+  simp only [out, valueIteration]
+  rw [h3 s hs]
+  simp only [Nat.sub_zero]
+  exact hz _ s hs
+
+/-- **Geometric decay of the variation.** Consecutive DP iterates differ by at most γ^k times the first difference. -/
+theorem optFrom_variation_geometric (m : MDP) (hγ0 : 0 ≤ m.γ) (hT : ValidT m) (v0 : Nat → Rat) (d : Rat)
+    (hd : ∀ s, s < m.S → |optFrom m v0 1 s - v0 s| ≤ d) :
+    ∀ k s, s < m.S → |optFrom m v0 (k+1) s - optFrom m v0 k s| ≤ m.γ ^ k * d := by
+  intro k
+  induction k with
+  | zero => intro s hs; simpa [optFrom] using hd s hs
+  | succ k ih =>
+    intro s hs
+    have := bellman_contraction m (optFrom m v0 (k+1)) (optFrom m v0 k) (m.γ ^ k * d) hγ0 hT ih s
+    simp only [optFrom] at this ⊢
+    rw [pow_succ]
+    calc _ ≤ m.γ * (m.γ ^ k * d) := this
+      _ = m.γ ^ k * m.γ * d := by ring
+
+/-- Observation (outside C01's quantifier, kept because the model reproduces it): a warm start whose `actions` vector is
+    empty makes `bellmanOperatorInplace` a no-op, so a pass only multiplies the values by γ.  This is why `vi_tol0_warm`
+    needs `actions.size = S`. -/
+theorem viStep_short_actions (m : MDP) (rep : Rep) (ir : Mat) (useTol : Bool) (st : VIState)
+    (hv : st.vf.values.size = m.S) (ha : st.vf.actions.size = 0) :
+    ∀ s, s < m.S → (viStep m rep ir useTol st).vf.values.get s = st.vf.values.get s * m.γ := by
+  intro s hs
+  simp only [viStep, bellmanInplace, mkVec_size, ha]
+  rw [mkVec_get _ (by omega), if_neg (by omega), mkVec_get _ (by omega)]
+
 /-! ## the hypotheses are satisfiable: a concrete non-trivial MDP (2 states, 2 actions, negative reward, self-loop) -/
 
 def exMDP : MDP :=
